@@ -176,7 +176,13 @@ impl fmt::Display for CompoundVariable {
                     _ => format!("{{{}}}", i),
                 },
                 //a name that begins with an underscore would be read back as a literal name fragment
-                PreExp::Variable(name) if !name.value().starts_with('_') => name.value().clone(),
+                //(and an escaped name \a_i would be read back as a indexed by i)
+                PreExp::Variable(name)
+                    if !name.value().starts_with('_')
+                        && !crate::utils::is_escaped_variable_name(name.value()) =>
+                {
+                    name.value().clone()
+                }
                 _ => format!("{{{}}}", i),
             })
             .collect::<Vec<String>>();
